@@ -79,6 +79,12 @@ def _pool(m, tier):
     for k in range(0, m, 11):
         P["logE"][k] = (6.0, 12.0, 8.0, 7.25)[(k // 11) % 4]
     P["u"] = np.array([r.uniform(1e-6, 1.0 - 1e-6) for _ in range(m)])
+    # near-duplicates (not exact repeats) in the per-event inputs of the tau and decay stages
+    for k in range(5, m, 13):
+        P["logE"][k] = P["logE"][k - 1] * (1.0 + 3e-9)
+        P["beta_in"][k] = P["beta_in"][k - 1] + 2e-10
+        P["u"][k] = P["u"][k - 1] * (1.0 - 4e-9)
+    P["logE"] = np.clip(P["logE"], 6.0, 12.0)
     gam = 10 ** np.array([r.uniform(3.0, 10.0) for _ in range(m)])
     P["tauLorentz"] = gam
     P["tauBeta"] = np.sqrt(1.0 - np.reciprocal(gam**2))
@@ -214,6 +220,23 @@ def _guard_args(ctx, stage, opi, args, fn, fresh=None):
     for k, (a, b) in enumerate(zip(args, before)):
         if histsim.abytes(a) != b:
             ctx.violate("c11.argument_modified", f"op {opi} {stage}: argument {k} (array of {np.asarray(a).size} elements) was modified in place by the call", sig=f"{stage}:arg{k}")
+    # the model without memory: now and then the same batch goes to a fresh object as well
+    # (a state that is polluted consistently is invisible to a first-observation memo);
+    # only for calls whose random numbers are fixed (explicit, or the constant stream)
+    if fresh is not None and out is not None and not stage.startswith(("RegionGeom", "EAS.__call__")) and args and len(args[0]) <= 256 \
+            and ctx.ch.draw(4, "fresh_check") == 3:
+        try:
+            ref = fresh()
+        except Exception:  # noqa: BLE001
+            ref = None
+        if ref is not None:
+            ctx.probes["fresh_object_cross_check"] += 1
+            oo = list(out) if isinstance(out, tuple) else [out]
+            rr = list(ref) if isinstance(ref, tuple) else [ref]
+            for k, (a_, b_) in enumerate(zip(oo, rr)):
+                if histsim.abytes(np.asarray(a_)) != histsim.abytes(np.asarray(b_)):
+                    ctx.violate("c11.differs_from_fresh_object", f"op {opi} {stage} output {k}: the long-lived object returns {np.asarray(a_).ravel()[:3]!r}, a fresh object {np.asarray(b_).ravel()[:3]!r} for the same batch", sig=stage)
+                    break
     return out
 
 
@@ -339,7 +362,7 @@ def scn_history(ctx):
             if big and st in ("geom", "tau_exit_prob", "tau_energy_u", "tau_energy_const", "taus_call", "altDec"):
                 # sub-batches that straddle the 8192-element iterator buffer
                 a = ch.draw(m, "big_a")
-                n = (8193, 8192, 8191, 16385, 20001, 1, 12000)[ch.draw(7, "big_n")]
+                n = (8193, 8192, 8191, 16385, 20001, 1, 12000, 65537)[ch.draw(8, "big_n")]
                 stride = (1, 1, 3, 7)[ch.draw(4, "big_stride")]
                 idx = [(a + k * stride) % m for k in range(n)]
                 if n > 8192:
@@ -569,7 +592,7 @@ def scn_history(ctx):
 
 
 FAMILIES = {"history": scn_history}
-PLAN = {"quick": [("history", 1500, 10)], "thorough": [("history", 120000, 40)]}
+PLAN = {"quick": [("history", 1100, 10)], "thorough": [("history", 120000, 40)]}
 BUDGET = {"quick": 200, "thorough": 2400}
 
 META = {
